@@ -347,11 +347,19 @@ func rangeBoundsOnce(c *core.Check, prog *core.Prog) {
 				cc := s.(*ast.CaseClause)
 				// an arm that uses the expression as it is: assigns re.<fld> to cond/post
 				usesDirect := false
-				for _, st := range cc.Body {
-					if as, ok := st.(*ast.AssignStmt); ok && len(as.Rhs) == 1 && nows(core.ExprStr(as.Rhs[0])) == "re."+fld {
-						usesDirect = true
+				// (anywhere in the arm, also under an `if`; the bound may be spelled re.<fld> or be the switch's own variable)
+				bound := info.Implicits[cc]
+				ast.Inspect(&ast.BlockStmt{List: cc.Body}, func(m ast.Node) bool {
+					if as, ok := m.(*ast.AssignStmt); ok {
+						for _, r := range as.Rhs {
+							r = ast.Unparen(r)
+							if nows(core.ExprStr(r)) == "re."+fld || (bound != nil && identObj(info, r) == bound) {
+								usesDirect = true
+							}
+						}
 					}
-				}
+					return true
+				})
 				if usesDirect {
 					for _, e := range cc.List {
 						if nt := namedOf(info.TypeOf(e)); nt != nil {
